@@ -95,6 +95,10 @@ fn alphabet0(b: &Built) -> Vec<Op> {
         a.push(Op::Repos { pos: 0, lower: -64, upper: 192, liq: stdworlds::BIG / 2 });
         a.push(Op::Repos { pos: 0, lower: -128, upper: 128, liq: stdworlds::BIG });
         a.push(Op::Repos { pos: 1, lower: 128, upper: 5696 + 64, liq: 77 });
+        // must be refused: an empty range [T, T) (both bound updates would land on one tick: net -L, gross L, no tokens paid) and
+        // an inverted one
+        a.push(Op::Repos { pos: 0, lower: 64, upper: 64, liq: 9_000 });
+        a.push(Op::Repos { pos: 1, lower: 192, upper: 128, liq: 9_001 });
     }
     a
 }
